@@ -73,6 +73,7 @@ type run struct {
 	released        bool                   // calls suspended by a hold continued in the segment being judged: events cannot be attributed to the primary op alone
 	justReleased    map[string]delayedSync // delayed Synchronize calls that reached the scheduler in the segment being judged
 	pendingReleased bool                   // a hold was ended outside window(): the next segment is a release window
+	deferred        []string               // continuations the model has enabled for calls that are suspended by the hold
 	modelHolds      bool                   // model-compared history with held wake-ups (hold=1): the continuations of suspended workers are fed to the model when the hold ends
 	segReadAt       map[string]int64       // clock values that calls released in this segment had read
 	selHeld         bool                   // an Execute call is parked inside Select (hold=3); only another Execute may follow
@@ -252,11 +253,19 @@ func (r *run) safeDump() (st *scheduler.VerifState) {
 func (r *run) window(primary string, an string) {
 	synctest.Wait()
 	if r.w.clk.holding() && !r.holdThis {
-		// the calls of this op ran to completion while the workers woken by the previous op
-		// were still on their way back to the scheduler lock; let those continue now
+		// The calls of this op ran to completion while the calls suspended by the hold were still on
+		// their way to the scheduler lock.  Judge that segment first, with the hold still in force; then
+		// let the suspended calls continue and judge what they do as a segment of its own.
+		r.holdThis = true
+		r.window(primary, an)
+		r.holdThis = false
+		if r.fail != nil || r.tie {
+			return
+		}
 		r.w.clk.release()
-		synctest.Wait()
 		r.pendingReleased = true
+		r.window("", an)
+		return
 	}
 	if r.pendingReleased {
 		r.justReleased, r.w.delayed = r.w.delayed, nil
@@ -327,7 +336,12 @@ func (r *run) window(primary string, an string) {
 		}
 		return strings.Split(parts[1], ",")
 	}
-	enabled := ask(primary)
+	var enabled []string
+	if primary != "" {
+		enabled = ask(primary)
+	} else {
+		enabled = r.deferred // the continuations of the calls that were suspended
+	}
 	// the continuation of a worker that is suspended between its wake-up and the scheduler lock is
 	// not run now: the model gets it in the segment in which the hold ends, like the implementation
 	suspended := func(x string) bool {
@@ -338,34 +352,80 @@ func (r *run) window(primary string, an string) {
 		}
 		return false
 	}
-	for guard := 0; guard < 100 && r.fail == nil; guard++ {
-		next := ""
-		for _, x := range enabled {
-			if !suspended(x) {
-				next = x
+	drain := func() {
+		for guard := 0; guard < 100 && r.fail == nil; guard++ {
+			next, best := "", 1<<30
+			for _, x := range enabled {
+				if suspended(x) {
+					continue
+				}
+				p := 0
+				if e := strings.Split(x, ":"); e[0] == "w" && primary == "" {
+					// several released workers: in the order in which the implementation let them in
+					p = len(impl) + 1
+					for i, ev := range impl {
+						if strings.HasPrefix(ev, "sync w="+e[1]+" ") {
+							p = i + 1
+							break
+						}
+					}
+				}
+				if p < best {
+					next, best = x, p
+				}
+			}
+			if next == "" {
 				break
 			}
-		}
-		if next == "" {
-			break
-		}
-		e := strings.Split(next, ":")
-		switch e[0] {
-		case "w":
-			f := strings.Split(e[1], "/")
-			t := now
-			if v, ok := r.segReadAt[e[1]]; ok {
-				t = v
+			e := strings.Split(next, ":")
+			switch e[0] {
+			case "w":
+				f := strings.Split(e[1], "/")
+				t := now
+				if v, ok := r.segReadAt[e[1]]; ok {
+					t = v
+				}
+				enabled = ask(fmt.Sprintf("wwake %d %s %s %s %s", t, f[0], f[1], f[2], e[2]))
+			case "k":
+				enabled = ask("twake " + e[1] + " 0")
+			case "s":
+				enabled = ask(fmt.Sprintf("swake %d %s %s", now, e[1], e[2]))
 			}
-			enabled = ask(fmt.Sprintf("wwake %d %s %s %s %s", t, f[0], f[1], f[2], e[2]))
-		case "k":
-			enabled = ask("twake " + e[1] + " 0")
-		case "s":
-			enabled = ask(fmt.Sprintf("swake %d %s %s", now, e[1], e[2]))
+		}
+	}
+	drain()
+	// Synchronize calls that were overtaken between their clock read and the scheduler lock reach the
+	// scheduler in this segment, with the time they had read
+	var late []string
+	for k := range r.justReleased {
+		late = append(late, k)
+	}
+	sort.Strings(late)
+	// in the order in which the implementation let them in: a call that returned did so in that order;
+	// calls that are now blocked found nothing to do and are taken last
+	pos := func(k string) int {
+		for i, ev := range impl {
+			if strings.HasPrefix(ev, "sync w="+k+" ") {
+				return i
+			}
+		}
+		return len(impl)
+	}
+	sort.SliceStable(late, func(i, j int) bool { return pos(late[i]) < pos(late[j]) })
+	for _, k := range late {
+		if d := r.justReleased[k]; d.line != "" && r.fail == nil && !r.tie {
+			enabled = ask(d.line)
+			drain()
 		}
 	}
 	if r.fail != nil || r.tie {
 		return
+	}
+	r.deferred = nil
+	for _, x := range enabled {
+		if suspended(x) {
+			r.deferred = append(r.deferred, x)
+		}
 	}
 	ci, cm := canonEvents(impl), canonEvents(model)
 	if strings.Join(ci, ";") != strings.Join(cm, ";") {
@@ -474,9 +534,9 @@ func (r *run) apply(line string) {
 		case "retry":
 			w.an.retry = p[1] == "1"
 		case "hold": // monitor-only histories: see fakeClock.hold
-			r.holdThis = (p[1] == "1" || p[1] == "2" || p[1] == "3") && r.noModel || p[1] == "1" && r.modelHolds
+			r.holdThis = (p[1] == "1" || p[1] == "2" || p[1] == "3") && r.noModel || (p[1] == "1" || p[1] == "2") && r.modelHolds
 			w.slowSelectNext = p[1] == "3" && r.noModel && args[1] == "exec"
-			w.delayNext = p[1] == "2" && r.noModel && args[1] == "sync"
+			w.delayNext = p[1] == "2" && (r.noModel || r.modelHolds) && args[1] == "sync"
 		}
 	}
 	bg := "-"
@@ -545,6 +605,8 @@ func (r *run) apply(line string) {
 		if out != "ok" {
 			r.failf("mismatch", "", "Sched correspondence (driver)", "regpq: %s", out)
 		}
+		// (RegisterPredeclaredPlatformQueue enters the scheduler like every call)
+		r.askModel(fmt.Sprintf("touch %d %s", now, r.hints(map[string]string{}, an)))
 	case "exec": // c d comps inv prio
 		c := atoi(a[0])
 		if cl, ok := w.clients[c]; ok && !cl.done {
@@ -631,7 +693,14 @@ func (r *run) apply(line string) {
 			return // duplicate synchronisation of a worker is exercised separately (syncdup)
 		}
 		w.startSync(strconv.Itoa(pq), sc, comps, plat, atoi(ht[0]), atoi(ht[1]), a[4], a[5] == "1")
-		r.window(fmt.Sprintf("sync %d %d %d %s %d %s %s %s", now, pq, sc, intsStr(comps), plat, a[3], a[4], a[5]), an)
+		line := fmt.Sprintf("sync %d %d %d %s %d %s %s %s", now, pq, sc, intsStr(comps), plat, a[3], a[4], a[5])
+		if d, ok := w.delayed[key]; ok {
+			// the call has read the clock but has not reached the scheduler: nothing to tell the model yet
+			d.line = line
+			w.delayed[key] = d
+			line = ""
+		}
+		r.window(line, an)
 	case "wcancel": // comps plat sc h.t
 		comps, plat, sc := ints(a[0]), atoi(a[1]), atoi(a[2])
 		pq := w.pqID(comps, plat)
